@@ -41,7 +41,8 @@ def gen_numeric_feature(s, name, lattice_size, allow_unimodal, p_mono=0.7):
   spelled = mono
   if s.chance(0.5):
     spelled = {1: "increasing", -1: "decreasing", 0: "none"}[mono]
-  always = bool(mono == 0 and s.chance(0.3))
+  # Valid (if unusual) for every monotonicity, not only for 'none'.
+  always = bool(s.chance(0.3))
   convexity = 0
   kp_type = "fixed"
   if s.chance(0.25):
@@ -130,6 +131,16 @@ def feature_config(tfl, f, extra=None):
       pwl_calibration_clamp_max=f["clamp_max"],
       default_value=f["default_value"],
       **extra)
+
+
+def _gen_dominances(s, mains):
+  """Acyclic dominance pairs (dominant before weak in `mains` order); several
+  pairs may share a feature."""
+  cand = [(i, j) for i in range(len(mains)) for j in range(i + 1, len(mains))]
+  k = s.integer(1, min(3, len(cand)))
+  idx = sorted(s.permutation(len(cand))[:k])
+  return [{"dominant": mains[cand[i][0]], "weak": mains[cand[i][1]]}
+          for i in idx]
 
 
 def gen_bounds(s):
@@ -249,8 +260,11 @@ class PremadeBuilder(object):
     if (param == "all_vertices" and structure in (None, "explicit") and
         kind != "linear" and s.chance(0.25)):
       names = [f["name"] for f in feats]
+      # Lattice dimensions are increasing for every constrained feature
+      # (decreasing ones are flipped by their calibrator).
       mains = [f["name"] for f in feats
-               if f["type"] == "num" and direction_of(f) == 1]
+               if (f["type"] == "num" and direction_of(f) != 0) or
+               (f["type"] == "cat" and f["monotonicity"])]
       conds = [f["name"] for f in feats if f["name"] not in mains]
       if mains and conds:
         model["trusts"].append({
@@ -260,13 +274,15 @@ class PremadeBuilder(object):
             "direction": s.choice(["positive", "negative", 1, -1]),
         })
       if len(mains) >= 2 and s.chance(0.5):
-        a, b = mains[0], mains[1]
-        model["dominances"].append({"dominant": a, "weak": b})
-    if kind == "linear" and s.chance(0.2):
+        model["dominances"] = _gen_dominances(s.sub("dom"), mains)
+    if kind == "linear" and s.chance(0.4):
+      # Linear dominance needs both weights increasing: numeric features of
+      # either direction and ordered categoricals all map to increasing.
       mains = [f["name"] for f in feats
-               if f["type"] == "num" and direction_of(f) == 1]
+               if (f["type"] == "num" and direction_of(f) != 0) or
+               (f["type"] == "cat" and f["monotonicity"])]
       if len(mains) >= 2:
-        model["dominances"].append({"dominant": mains[0], "weak": mains[1]})
+        model["dominances"] = _gen_dominances(s.sub("dom"), mains)
     model["regularizers"] = []
     if s.chance(0.15):
       model["regularizers"].append(["calib_laplacian", 0.0, 1e-3])
@@ -684,9 +700,11 @@ def _num_feature(name, lo, hi, missing=None, strict=False):
           "strict_range": strict}
 
 
-def _lattice_feature(name, size, clip):
-  """In-range probes only when the layer does not clip its inputs."""
-  if clip:
+def _lattice_feature(name, size, clip, simplex=False):
+  """Out-of-range probes are legitimate when the layer clips, and also when it
+  extrapolates multilinearly; unclipped simplex interpolation is only defined
+  inside the lattice."""
+  if clip or not simplex:
     return _num_feature(name, -0.5, size - 0.5)
   return _num_feature(name, 0.0, size - 1.0, strict=True)
 
@@ -871,8 +889,8 @@ class LayerBuilder(object):
       a["seeded_init"] = s.chance(0.4)
       a["init_seed"] = s.integer(0, 999)
     elif kind == "rtl":
-      a["n_unconstrained"] = s.integer(0, 3)
-      a["n_increasing"] = s.integer(0, 3)
+      a["n_unconstrained"] = s.integer(0, 4)
+      a["n_increasing"] = s.integer(0, 4)
       if a["n_unconstrained"] + a["n_increasing"] == 0:
         a["n_increasing"] = 2
       n_in = a["n_unconstrained"] + a["n_increasing"]
@@ -900,7 +918,7 @@ class LayerBuilder(object):
           _reg_arg(s, ["torsion", "laplacian"]) if a["parameterization"] ==
           "all_vertices" else None)
       a["average_outputs"] = bool(not a["separate_outputs"] and s.chance(0.4))
-      a["input_style"] = s.choice(["tensor", "list"])
+      a["input_style"] = s.choice(["tensor", "list", "grouped", "grouped"])
     elif kind == "cdf":
       a["dims"] = s.choice([1, 2, 4])
       a["num_keypoints"] = s.integer(2, 6)
@@ -1053,6 +1071,13 @@ class LayerBuilder(object):
           continue
         if a["input_style"] == "list" and len(group) > 1:
           d[key] = list(group)
+        elif a["input_style"] == "grouped" and len(group) > 2:
+          # Multi-unit input groups: [(n, 2), (n, rest)].
+          d[key] = [keras.layers.Concatenate(axis=1)(group[:2]),
+                    (keras.layers.Concatenate(axis=1)(group[2:])
+                     if len(group) > 3 else group[2])]
+        elif a["input_style"] == "grouped" and len(group) == 2:
+          d[key] = [keras.layers.Concatenate(axis=1)(group)]
         else:
           d[key] = (keras.layers.Concatenate(axis=1)(group)
                     if len(group) > 1 else group[0])
@@ -1116,7 +1141,8 @@ class LayerBuilder(object):
       return [{"name": "x0", "type": "cat", "num_buckets": a["num_buckets"],
                "pairs": [], "default": a["default_input_value"]}]
     if kind == "lattice":
-      return [_lattice_feature("x%d" % i, sz, a["clip_inputs"])
+      return [_lattice_feature("x%d" % i, sz, a["clip_inputs"],
+                               a["interpolation"] == "simplex")
               for i, sz in enumerate(a["lattice_sizes"])]
     if kind == "linear":
       return [_num_feature("x%d" % i, -3.0, 3.0)
@@ -1125,7 +1151,8 @@ class LayerBuilder(object):
       return [_lattice_feature("x%d" % i, a["lattice_sizes"], a["clip_inputs"])
               for i in range(a["dims"])]
     if kind == "rtl":
-      return [_lattice_feature("x%d" % i, a["lattice_size"], a["clip_inputs"])
+      return [_lattice_feature("x%d" % i, a["lattice_size"], a["clip_inputs"],
+                               a["interpolation"] == "simplex")
               for i in range(a["n_unconstrained"] + a["n_increasing"])]
     if kind == "cdf":
       return [_num_feature("x%d" % i, -0.5, 1.5) for i in range(a["dims"])]
@@ -1151,3 +1178,15 @@ class LayerBuilder(object):
 
 
 BUILDERS["layer"] = LayerBuilder
+
+
+def seed_derived(spec):
+  """True if the model's wiring is recomputed from a seed when it is built."""
+  b = spec["builder"]
+  if b == "premade":
+    return spec["model"].get("structure") in ("random", "rtl")
+  if b == "stack":
+    return spec["stack"]["mid"] == "rtl"
+  if b == "layer":
+    return spec["kind"] == "rtl"
+  return False
